@@ -1,1 +1,16 @@
-/- C07 — theorems (placeholder until the property is built). -/
+/- C07 — theorems (work in progress). -/
+import PandoraModel.Model.CrossCheck
+import PandoraModel.Properties.Flags
+
+namespace Pandora.C07
+open Pandora Pandora.CrossCheck
+
+/-- the "outside the right image" branch of the code can never be taken -/
+theorem outside_never (ncol : Nat) (q : Option Int) : outsideRightAsWritten ncol q = false := by
+  cases q with
+  | none => rfl
+  | some q =>
+    simp only [outsideRightAsWritten, Bool.and_eq_false_iff, decide_eq_false_iff_not]
+    omega
+
+end Pandora.C07
